@@ -24,7 +24,9 @@ import (
 // mode => ref says not Dead. (Only this direction; C08 is the converse.)
 func init() { Registry["C09"] = &Check{Setup: c09Setup, Run: c09Run} }
 
-var sigma09 = []byte("{}[],:\"\\1a -.eu\n")
+// 0xC3: a UTF-8 lead byte (a scanner that trusts the length a lead byte announces
+// steps over the closing quote)
+var sigma09 = []byte("{}[],:\"\\1a -.eu\n\xc3")
 
 // c09Eval: Limit semantics as in Detect. Ints[0]==1 => fast path allowed.
 func c09Eval(cs *core.Case) (bool, string, string) {
@@ -250,6 +252,17 @@ func c09Run(c *core.Ctx) {
 						c.Check(cs)
 					}
 				}
+			}
+		}
+	}
+
+	// F: every byte >= 0x80 inside a string or key, directly in front of the
+	// closing quote, followed by material that would re-close an over-long string
+	if c.Mine(4) {
+		for b := 0x80; b <= 0xFF; b++ {
+			for _, tmpl := range []string{"[\"%\"]\"]", "[\"%\", \"]", "{\"k%\":1,\":2}", "[\"%\"]]\"]", "{\"a\":\"%\"}1\"}", "[\"%\"]\"\"\"]", "[\"a%\",\"b\"]"} {
+				doc := []byte(strings.Replace(tmpl, "%", string([]byte{byte(b)}), 1))
+				try(doc, 0, "F:high-byte-before-closing-quote", false)
 			}
 		}
 	}
